@@ -568,6 +568,12 @@ gccUnit(Foam foam, String name)
 	gcvParams = foamUnitParams(foam);
 #endif
 
+	/* Names of big-integer and raw-record-format constants are numbered
+	 * per unit: a file must not continue the numbering of the file
+	 * compiled before it in the same invocation. */
+	gcvNBInts = 0;
+	gcvNRRFmt = 0;
+
 	gc0InitSpecialChars();
 	gcvDefs = foam->foamUnit.defs;
 	assert(foamTag(gcvDefs) == FOAM_DDef);
